@@ -306,6 +306,11 @@ pub fn mutants_of(e: &Entry, bytes: &[u8], tree: &r8::Node, pairs: bool) -> Vec<
     for (d, b) in &single {
         push(&mut out, b.clone(), d.clone(), "field/structure (R8)");
     }
+    // consistent resizings: several coordinated edits that keep every length / count relation the
+    // parsers check, so that only a missing *semantic* check can notice them
+    for (d, b) in resizings(e, tree) {
+        push(&mut out, b, d, "consistent resizing (R8)");
+    }
     if pairs {
         // pairs of edits inside the header group (context + unique-query count): apply the edits
         // of a once-edited tree whose first edit was in the header
@@ -356,4 +361,90 @@ pub fn replay_bytes(v: &Value) -> Vec<u8> {
     }
     // the enumeration drops duplicates (an R8 edit may equal a byte-level fault): look the edit up directly
     r8::edits(&tree).into_iter().find(|(d, _)| d == want || (want.ends_with('*') && d.starts_with(want.trim_end_matches('*')))).map(|(_, b)| b).unwrap_or_else(|| mck::report::machinery(&format!("replay: no mutant '{want}' of corpus proof {id}")))
+}
+
+/// Coordinated structural edits of a proof tree (each keeps the proof well-formed for the parsers):
+/// one more / one fewer unique query with a row added to / removed from every query table; an
+/// extra FRI layer shaped for the next domain; a remainder padded with zero high coefficients.
+pub fn resizings(e: &Entry, tree: &r8::Node) -> Vec<(String, Vec<u8>)> {
+    let mut out = vec![];
+    let val = |t: &r8::Node, suffix: &str| -> u64 {
+        match r8::get(t, &r8::find(t, suffix).unwrap()) {
+            r8::Node::Int { value, .. } => *value,
+            _ => 0,
+        }
+    };
+    let nuq = val(tree, "proof.num_unique_queries") as usize;
+    let tables: Vec<Vec<usize>> = r8::paths(tree).into_iter().filter(|(_, n)| (n.contains("trace_queries") || n.contains("constraint_queries")) && n.ends_with("values.elements")).map(|(p, _)| p).collect();
+    let set_nuq = |t: &mut r8::Node, v: u64| {
+        let p = r8::find(t, "proof.num_unique_queries").unwrap();
+        if let r8::Node::Int { value, .. } = r8::get_mut(t, &p) {
+            *value = v;
+        }
+    };
+    if nuq >= 1 && nuq < 255 {
+        for (which, what) in [(0usize, "first"), (nuq - 1, "last")] {
+            let mut t = tree.clone();
+            set_nuq(&mut t, nuq as u64 + 1);
+            for p in &tables {
+                if let r8::Node::Raw { bytes, .. } = r8::get_mut(&mut t, p) {
+                    let row = bytes.len() / nuq;
+                    let copy = bytes[which * row..(which + 1) * row].to_vec();
+                    bytes.extend(copy);
+                }
+            }
+            out.push((format!("unique-query count + 1 and a copy of the {what} row appended to every query table"), r8::to_bytes(&t)));
+        }
+    }
+    if nuq >= 2 {
+        let mut t = tree.clone();
+        set_nuq(&mut t, nuq as u64 - 1);
+        for p in &tables {
+            if let r8::Node::Raw { bytes, .. } = r8::get_mut(&mut t, p) {
+                let row = bytes.len() / nuq;
+                bytes.truncate((nuq - 1) * row);
+            }
+        }
+        out.push(("unique-query count - 1 and the last row dropped from every query table".into(), r8::to_bytes(&t)));
+    }
+    // extra FRI layer: a copy of the last one with the opening depth lowered by log2(folding)
+    if let Some(lp) = r8::find(tree, "fri_proof.layers") {
+        let n_layers = r8::children(r8::get(tree, &lp)).len();
+        if n_layers >= 1 {
+            for keep_one_coset in [false, true] {
+                let mut t = tree.clone();
+                let mut extra = r8::children(r8::get(&t, &lp))[n_layers - 1].clone();
+                if let Some(dp) = r8::find(&extra, "batch_merkle_proof.depth") {
+                    if let r8::Node::Int { value, .. } = r8::get_mut(&mut extra, &dp) {
+                        *value = value.saturating_sub(e.cfg.folding.trailing_zeros() as u64);
+                    }
+                }
+                if keep_one_coset {
+                    if let Some(vp) = r8::find(&extra, "values.elements") {
+                        if let r8::Node::Raw { bytes, unit, .. } = r8::get_mut(&mut extra, &vp) {
+                            let coset = *unit * e.cfg.folding;
+                            if bytes.len() > coset {
+                                bytes.truncate(coset);
+                            }
+                        }
+                    }
+                }
+                if let r8::Node::Count { items, .. } = r8::get_mut(&mut t, &lp) {
+                    items.push(extra);
+                }
+                out.push((format!("one more FRI layer: a copy of the last layer shaped for the next domain{}", if keep_one_coset { " (one coset kept)" } else { "" }), r8::to_bytes(&t)));
+            }
+        }
+    }
+    // remainder with zero high-degree coefficients in front (same polynomial, other bytes)
+    if let Some(rp) = r8::find(tree, "fri_proof.remainder.coefficients") {
+        let mut t = tree.clone();
+        if let r8::Node::Raw { bytes, .. } = r8::get_mut(&mut t, &rp) {
+            let mut nb = vec![0u8; bytes.len()];
+            nb.extend(bytes.iter());
+            *bytes = nb;
+        }
+        out.push(("remainder doubled in length with zero high-degree coefficients".into(), r8::to_bytes(&t)));
+    }
+    out
 }
